@@ -841,13 +841,14 @@ Definition heaps_b (c : cfg) : bool :=
 (* a delayed / pending block belongs to a page of the heap's owner, and to that heap unless it is being absorbed *)
 Definition del_ok (c : cfg) (h : N) (b : bid) : bool :=
   let hp := geth c h in let pg := getp c (fst b) in
-  hp_alive hp && (pg_tid pg =? hp_owner hp)
+  hp_alive hp && pg_alive pg && (pg_tid pg =? hp_owner hp)
   && (oN_eqb (pg_heap pg) (Some h) || hd_bottom (th_stk (gett c (hp_owner hp))) h).
 Definition del_b (c : cfg) : bool :=
   forallb (fun kv => forallb (del_ok c (fst kv)) (hp_del (snd kv))) (c_hp c).
 Definition fr_ok (c : cfg) (t : N) (th : thread) (fr : frame) : bool :=
   match fr with
-  | TC1 p | TC2 p _ _ | FC1 p _ | FC2 p _ | HC4 _ _ p _ => own (getp c p) t
+  | TC1 p | TC2 p _ _ | FC1 p _ | FC2 p _ => own (getp c p) t
+  | HC4 h _ p _ => own (getp c p) t && hown (geth c h) t
   | TU1 p d _ _ _ => own (getp c p) t && negb (flag_eqb d Freeing) && negb (flag_eqb d NoD)
   | TU2 p d _ _ _ f _ => own (getp c p) t && negb (flag_eqb d Freeing) && negb (flag_eqb d NoD) && negb (flag_eqb f Freeing)
   | TC3 p tl => own (getp c p) t && forallb (onp p) tl
@@ -857,11 +858,12 @@ Definition fr_ok (c : cfg) (t : N) (th : thread) (fr : frame) : bool :=
   | DP4 h b r _ | DP5 h b r _ | DP6 h b r _ => hown (geth c h) t && forallb (del_ok c h) (b :: r)
   | HD2 h bk => hown (geth c h) t && negb (hp_backing (geth c h)) && oN_eqb (th_backing th) (Some bk)
   | HD3 h bk ps => hown (geth c h) t && negb (hp_backing (geth c h)) && oN_eqb (th_backing th) (Some bk)
-                   && forallb (fun p => own (getp c p) t) ps
+                   && forallb (fun p => own (getp c p) t
+                                        && (oN_eqb (pg_heap (getp c p)) (Some h) || oN_eqb (pg_heap (getp c p)) (Some bk))) ps
   | HD4 h => hown (geth c h) t && negb (hp_backing (geth c h))
   | RF4 b h | RF5 b h _ =>
     let pg := getp c (fst b) in
-    hown (geth c h) (pg_tid pg)
+    pg_alive pg && hown (geth c h) (pg_tid pg)
     && (oN_eqb (pg_heap pg) (Some h) || absorbing (th_stk (gett c (pg_tid pg))) (fst b) h)
   | _ => true
   end.
@@ -914,3 +916,29 @@ Definition collected_b (c0 c : cfg) (h : N) : bool :=
        (if Nat.eqb (live_count c0 p) 0 then negb (pg_alive pg)
         else pg_alive pg && isnil (pg_tf pg) && (pg_used pg =? N.of_nat (live_count c0 p))))
      (c_pg c0).
+
+(* ------------------------------------------------------------------------------------------ *)
+(* the places of DESIGN.md A.6, as counts per page (for the statement of tfree_used_count)     *)
+(* ------------------------------------------------------------------------------------------ *)
+(* owner's private pending list (taken over by _mi_heap_delayed_free_partial, not yet processed) *)
+Definition fr_pending (fr : frame) : list bid :=
+  match fr with
+  | DP3 _ pend _ => pend
+  | DP4 _ b r _ | DP5 _ b r _ | DP6 _ b r _ => b :: r
+  | _ => []
+  end.
+(* in the hand of a thread inside a free operation (remote free; the owner's taken-over thread list) *)
+Definition fr_hand (fr : frame) : list bid :=
+  match fr with
+  | RF1 b | RF2 b _ _ | RF3 b | RF4 b _ | RF5 b _ _ => [b]
+  | TC3 _ tl => tl
+  | _ => []
+  end.
+Definition tf_count (c : cfg) (p : N) : nat := length (pg_tf (getp c p)).
+Definition del_count (c : cfg) (p : N) : nat := ftot (fun hp => cnt (onp p) (hp_del hp)) (c_hp c).
+Definition pend_count (c : cfg) (p : N) : nat :=
+  ftot (fun th => cnt (onp p) (flat_map fr_pending (th_stk th))) (c_th c).
+Definition hand_count (c : cfg) (p : N) : nat :=
+  ftot (fun th => cnt (onp p) (flat_map fr_hand (th_stk th))) (c_th c).
+(* thread t is between its first successful CAS on xthread_free p and its last *)
+Definition in_window (c : cfg) (t p : N) : bool := Nat.leb 1 (sum_fr (win_fr p) (th_stk (gett c t))).
